@@ -43,6 +43,9 @@ def programs(tier):
                         mids.append(m2)
                 if tier == "quick" and pre is not st:
                     mids = mids[:1 + len(MID1)]
+                if pre is st:
+                    # a user-defined marker relation (extension point) downstream of the transfer
+                    mids += [("tag", x), ("sel", ("tag", x), ("gt", meprogs.A, ("lit", "$k2")))]
                 for mid in mids:
                     for lab in finals:
                         for o in optsets:
